@@ -272,3 +272,11 @@ Proof.
   split; [intros Hne; apply ProofsR.dct_orthogonal; lia|apply ProofsR.dct_unit_norm; lia].
 Qed.
 Print Assumptions cosine_drift_orthonormal_partial.
+
+(* the DCT-II columns depend on the scan INDEX only: computed from scan times s + t*dt they need the time
+   relative to the first scan; with time/dt the phase gets the origin-dependent offset (pi/n)(s/dt)k *)
+Theorem cosine_drift_independent_of_time_origin : forall n k t s dt, (dt <> 0)%R ->
+  (PI / INR n * (((s + INR t * dt) - s) / dt + / 2) * INR k = ProofsR.phase n t k)%R /\
+  (PI / INR n * ((s + INR t * dt) / dt + / 2) * INR k = ProofsR.phase n t k + PI / INR n * (s / dt) * INR k)%R.
+Proof. exact ProofsR.phase_from_times. Qed.
+Print Assumptions cosine_drift_independent_of_time_origin.
